@@ -14,7 +14,7 @@ use crate::corpus::ramp;
 use crate::explore;
 use crate::hashobj::*;
 use serde_json::{json, Value};
-use ssdeep::internal_comparison::{BlockHashPositionArray, BlockHashPositionArrayData};
+use ssdeep::internal_comparison::{BlockHashPositionArray, BlockHashPositionArrayData, BlockHashPositionArrayImpl};
 use ssdeep::{
     DualFuzzyHash, FuzzyHash, FuzzyHashCompareTarget, Generator, LongDualFuzzyHash, LongFuzzyHash, LongRawFuzzyHash,
     RawFuzzyHash,
@@ -634,6 +634,13 @@ pub fn replay(c: &Value) -> Result<(), String> {
         #[cfg(not(feature = "unchecked"))]
         return Err("this case needs the unchecked-feature build (replay through ./check --replay)".into());
     }
+    if let Some(shape) = c["sweep_shape"].as_u64() {
+        let act = c["sweep_act"].as_str().and_then(act_parse).ok_or("bad sweep action")?;
+        return sweep_case(shape as u8, act);
+    }
+    if let Some(arg) = c["pa_arg"].as_str() {
+        return pa_init_case(&unhex(c["pa_prev"].as_str().unwrap_or("")), &unhex(arg)).map(|_| ());
+    }
     let path: Vec<Act> = c["path"]
         .as_array()
         .ok_or("path")?
@@ -641,6 +648,168 @@ pub fn replay(c: &Value) -> Result<(), String> {
         .map(|v| v.as_str().and_then(act_parse).ok_or("bad action"))
         .collect::<Result<_, _>>()?;
     run_path(&path)
+}
+
+
+// ------------------------------------------------------------------ byte-value and length sweeps
+
+/// A menu whose argument set number `v` carries the byte value `v` at one position (three shapes).
+fn sweep_menu(shape: u8) -> Menu {
+    let z = |v: Vec<u8>| {
+        let mut a = v;
+        a.resize(64, 0);
+        a
+    };
+    let mut args = vec![];
+    let mut arrays = vec![];
+    for v in 0..=255u8 {
+        match shape {
+            0 => {
+                args.push((2, vec![1, v, 2], vec![3]));
+                arrays.push((2, z(vec![1, v, 2]), z(vec![3]), 3, 1));
+            }
+            1 => {
+                args.push((2, vec![4], vec![v]));
+                arrays.push((2, z(vec![4]), z(vec![v]), 1, 1));
+            }
+            _ => {
+                // the last position of a full short block hash 2; and, for the array forms, the first byte of the tail
+                let mut b2 = ramp(32, 1);
+                b2[31] = v;
+                args.push((2, vec![v], b2));
+                let mut t = z(vec![5, 6]);
+                t[2] = v;
+                arrays.push((2, t, z(vec![]), 2, 0));
+            }
+        }
+    }
+    Menu { texts: texts(), args, arrays, actions: vec![] }
+}
+
+fn sweep_base(menu: &Menu) -> Regs {
+    let mut s = Regs::new();
+    for a in [Act::Parse(0, 2), Act::Parse(1, 3), Act::Parse(2, 2), Act::Parse(3, 4), Act::Parse(4, 1), Act::Parse(5, 3)] {
+        if let Some(n) = apply(menu, &s, a) {
+            s = n;
+        }
+    }
+    s
+}
+
+fn sweep_acts(v: u8) -> Vec<Act> {
+    let mut acts = vec![];
+    for r in 0..4u8 {
+        acts.extend([Act::NearRaw(r, v), Act::FromInternals(r, v), Act::InitRaw(r, v), Act::NewRaw(r, v)]);
+    }
+    acts.extend([Act::DualNearRaw(0, v), Act::DualNearRaw(1, v)]);
+    acts
+}
+
+/// One constructor call of the byte-value sweep (a populated register file, one call, the invariant).
+fn sweep_case(shape: u8, act: Act) -> Result<(), String> {
+    let menu = sweep_menu(shape);
+    let base = sweep_base(&menu);
+    invariant(&base)?;
+    let n = apply(&menu, &base, act).unwrap_or_else(|| base.clone());
+    invariant(&n)
+}
+
+/// `init_from` on a position array that already holds `prev`: in-contract arguments must give a valid array that
+/// represents the argument; out-of-contract arguments (longer than 64, symbols >= 64) may panic but the array must
+/// still pass its validity check afterwards (and Debug must not panic).
+fn pa_init_case(prev: &[u8], arg: &[u8]) -> Result<&'static str, String> {
+    let mut pa = BlockHashPositionArray::new();
+    guarded(|| pa.init_from(prev)).map_err(|p| format!("init_from(prev) panicked: {}", p))?;
+    let in_contract = arg.len() <= 64 && arg.iter().all(|&x| x < 64);
+    let r = guarded(|| pa.init_from(arg));
+    let valid = guarded(|| pa.is_valid()).map_err(|p| format!("is_valid panicked after init_from: {}", p))?;
+    guarded(|| format!("{:?}", pa)).map_err(|p| format!("Debug panicked after init_from: {}", p))?;
+    let what = |o: &str| format!("position array holding {} symbols, init_from({} symbols{}) {}", prev.len(), arg.len(), if in_contract { "" } else { ", out of contract" }, o);
+    match r {
+        Ok(()) => {
+            if !valid {
+                return Err(what("returned and left an invalid array"));
+            }
+            if in_contract {
+                let ok = guarded(|| pa.len() as usize == arg.len() && pa.is_equiv(arg))?;
+                if !ok {
+                    return Err(what("returned but the array does not represent the argument"));
+                }
+                Ok("accepted")
+            } else {
+                Ok("out_of_contract_accepted_valid")
+            }
+        }
+        Err(p) => {
+            if in_contract {
+                return Err(what(&format!("panicked: {}", p)));
+            }
+            if !valid {
+                return Err(what("panicked and left an invalid array behind"));
+            }
+            Ok("refused_by_panic")
+        }
+    }
+}
+
+fn pa_sweep_args() -> Vec<Vec<u8>> {
+    let sym = |n: usize| -> Vec<u8> { (0..n).map(|i| (i % 64) as u8).collect() };
+    let mut v: Vec<Vec<u8>> = (0..=70usize).map(sym).collect();
+    for n in [127usize, 128, 129, 191, 192, 255, 256, 257, 258, 300, 319, 320, 321, 511, 512, 513, 576, 1024, 4096, 65535, 65536, 65537, 65600] {
+        v.push(sym(n));
+    }
+    for n in [1usize, 4, 64] {
+        for pos in [0, n / 2, n - 1] {
+            for bad in [64u8, 65, 127, 128, 129, 191, 192, 254, 255] {
+                let mut a = sym(n);
+                a[pos] = bad;
+                v.push(a);
+            }
+        }
+    }
+    v.sort();
+    v.dedup();
+    v
+}
+
+fn sweeps(rep: &mut Report) {
+    // constructors x byte values
+    let acc = par_shards(3 * 256, |i, acc| {
+        let shape = (i / 256) as u8;
+        let v = (i % 256) as u8;
+        let menu = sweep_menu(shape);
+        let base = sweep_base(&menu);
+        for act in sweep_acts(v) {
+            acc.evaluations += 1;
+            acc.nontrivial += 1;
+            let n = apply(&menu, &base, act).unwrap_or_else(|| base.clone());
+            match invariant(&n) {
+                Ok(()) => acc.bump(if n.key() == base.key() { "refused_or_unchanged" } else { "object_stored" }),
+                Err(e) => acc.violation(format!("sweep shape={} {:?}", shape, act), e, json!({"sweep_shape": shape, "sweep_act": act_json(&act)})),
+            }
+        }
+        if i == 64 {
+            acc.sample(json!({"sweep_shape": 0, "sweep_act": "NearRaw(0, 64)"}));
+        }
+    });
+    acc.into_report(rep, "constructors_x_every_byte_value_at_3_positions");
+    // position array init_from x lengths / symbols
+    let args = pa_sweep_args();
+    let prevs: Vec<Vec<u8>> = vec![vec![], (0..64u8).collect(), vec![5, 5, 5], vec![63; 64]];
+    let acc = par_shards(args.len(), |i, acc| {
+        for prev in &prevs {
+            acc.evaluations += 1;
+            acc.nontrivial += 1;
+            match pa_init_case(prev, &args[i]) {
+                Ok(o) => acc.bump(o),
+                Err(e) => acc.violation(format!("pa init prev={} arg_len={} arg_head={}", prev.len(), args[i].len(), hex(&args[i][..args[i].len().min(8)])), e, json!({"pa_prev": hex(prev), "pa_arg": hex(&args[i])})),
+            }
+        }
+        if i == 65 {
+            acc.sample(json!({"pa_prev": hex(&prevs[1]), "pa_arg_len": args[i].len()}));
+        }
+    });
+    acc.into_report(rep, "position_array_init_from_x_lengths_and_symbols");
 }
 
 /// Corrupted objects can only be built through the `unsafe fn ..._unchecked` constructors of the
@@ -804,6 +973,8 @@ pub fn run(ctx: &Ctx) -> Report {
     acc.sample(json!({"path": ["Parse(1, 3)", "Conv(1)"]}));
     acc.into_report(&mut rep, "depth1_full_menu_from_base_states");
 
+    sweeps(&mut rep);
+
     // bounded BFS with the reduced menu (depth 3 quick; 4 thorough) — stateright + own BFS
     let depth: usize = std::env::var("MC_C11_DEPTH").ok().and_then(|v| v.parse().ok()).unwrap_or(ctx.tier.pick(3usize, 4));
     let cap = ctx.tier.pick(400_000usize, 6_000_000);
@@ -863,7 +1034,7 @@ pub fn run(ctx: &Ctx) -> Report {
     rep.set("exhaustive_scope", "all action sequences up to the depth bound over the stated menu (depth-bounded, not closed)");
     rep.set(
         "rule",
-        "register file with one object per type (4 plain, 2 dual, compare target, position array); menu: parse 10 texts (valid, run-heavy, capacity, long block hash 2, raw-overflowing by one run / by ordinary characters after a run, invalid) into 6 registers; new_from_internals / _near_raw / _raw / init_from_internals_raw with 10 argument sets each (in-contract, symbol 64 / 255 / 200, length over capacity, non-zero tail, un-normalised data for normalising types, invalid block size / log); normalize_in_place; 24 conversions between registers with previously used destinations; dual init / expand; compare-target init from 4 sources; position array init / clear; generator results.  Depth-1 sweep of the full menu from 4 base states + BFS to the depth bound.  Out-of-contract constructor calls may panic (counted) but must never leave an invalid object.",
+        "register file with one object per type (4 plain, 2 dual, compare target, position array); menu: parse 10 texts (valid, run-heavy, capacity, long block hash 2, raw-overflowing by one run / by ordinary characters after a run, invalid) into 6 registers; new_from_internals / _near_raw / _raw / init_from_internals_raw with 10 argument sets each (in-contract, symbol 64 / 255 / 200, length over capacity, non-zero tail, un-normalised data for normalising types, invalid block size / log); normalize_in_place; 24 conversions between registers with previously used destinations; dual init / expand; compare-target init from 4 sources; position array init / clear; generator results.  Depth-1 sweep of the full menu from 4 base states + BFS to the depth bound.  Sweeps: every checked constructor form of the 6 types with EVERY byte value 0..=255 at three positions (middle of block hash 1, block hash 2, last position of a full block hash 2 / first tail byte of the array forms), from a populated register file; position array init_from over every length 0..=70 and lengths around 128 / 256 / 320 / 512 / 65536 and symbols {64,65,127..129,191,192,254,255} at the first / middle / last position, on arrays that already hold a string: in-contract arguments give an array representing the argument, refused ones leave a valid array.  Out-of-contract constructor calls may panic (counted) but must never leave an invalid object.",
     );
     rep
 }
